@@ -372,18 +372,26 @@ func (c *e2eCtx) seqStep(base *scenario, st *seqState, op string, r *rand.Rand, 
 			if !ok {
 				continue
 			}
-			loc := editLineRe.FindStringSubmatchIndex(ut)
+			// the edited line must be unique in the user's text AND in the file on disk: go/printer may
+			// have expanded a one-line closure, which gives the file a second line with the same text
+			// (at another depth the pattern accepts) - editing "the first occurrence" would then touch
+			// different statements in the record and in the file
+			var loc []int
+			for _, l := range editLineRe.FindAllStringSubmatchIndex(ut, -1) {
+				ol := "\n" + ut[l[0]:l[1]] + "\n"
+				if strings.Count(ut, ol) == 1 && strings.Count(before[p], ol) == 1 {
+					loc = l
+					break
+				}
+			}
 			if loc == nil {
 				continue
 			}
 			oldLine := ut[loc[0]:loc[1]]
 			st.edits++
 			newLine := ut[loc[2]:loc[3]] + fmt.Sprint(50000+st.edits)
-			if strings.Count(before[p], oldLine+"\n") < 1 {
-				continue
-			}
-			st.userText[p] = strings.Replace(ut, oldLine+"\n", newLine+"\n", 1)
-			os.WriteFile(filepath.Join(st.dir, p), []byte(strings.Replace(before[p], oldLine+"\n", newLine+"\n", 1)), 0644)
+			st.userText[p] = strings.Replace(ut, "\n"+oldLine+"\n", "\n"+newLine+"\n", 1)
+			os.WriteFile(filepath.Join(st.dir, p), []byte(strings.Replace(before[p], "\n"+oldLine+"\n", "\n"+newLine+"\n", 1)), 0644)
 			done = true
 			break
 		}
